@@ -654,6 +654,46 @@ func (fl *Flow) defineInto(fs *FactSet, id *ast.Ident, e ast.Expr) {
 		return // refers to its own old value
 	}
 	origin := fl.m.pos(id.Pos())
+	// a reference copied into a variable: what is known of the source (not a leaf, of kind K, not
+	// empty) is recorded for the variable itself, so that it survives a join with a path on which
+	// the variable was copied from somewhere else (cursor = root before the loop, = *child in it)
+	var carry []func()
+	if nn := namedOf(v.Type()); nn != nil && fl.m.NodeRef != nil && nn.Obj() == fl.m.NodeRef.Obj() && fl.pureExpr(e) {
+		if _, isPtr := v.Type().Underlying().(*types.Pointer); !isPtr {
+			known, excl := fs.tagOf(e)
+			nilness := fs.nilnessOfField(e, "pointer")
+			lc := fl.m.leafConstExpr()
+			tagFld, ptrFld := fieldNamed(fl.m.NodeRef, "tag"), fieldNamed(fl.m.NodeRef, "pointer")
+			mkSel := func(name string, fld *types.Var) *ast.SelectorExpr {
+				sel := &ast.SelectorExpr{X: id, Sel: ast.NewIdent(name)}
+				if fl.synthSel == nil {
+					fl.synthSel = map[*ast.SelectorExpr]*types.Var{}
+				}
+				fl.synthSel[sel] = fld
+				return sel
+			}
+			if lc != nil && tagFld != nil {
+				if known != nil && *known == fl.m.LeafKind.Value {
+					carry = append(carry, func() { fl.cmpInto(fs, mkSel("tag", tagFld), token.EQL, lc, true, origin) })
+				} else if (known != nil && *known != fl.m.LeafKind.Value) || excl[fl.m.LeafKind.Value] {
+					carry = append(carry, func() { fl.cmpInto(fs, mkSel("tag", tagFld), token.NEQ, lc, true, origin) })
+				}
+			}
+			if ptrFld != nil && nilness != 0 {
+				nilID := ast.NewIdent("nil")
+				op := token.NEQ
+				if nilness == -1 {
+					op = token.EQL
+				}
+				carry = append(carry, func() { fl.cmpInto(fs, mkSel("pointer", ptrFld), op, nilID, true, origin) })
+			}
+		}
+	}
+	defer func() {
+		for _, f := range carry {
+			f()
+		}
+	}()
 	if fl.pureExpr(e) {
 		f := fl.mkFact(&Fact{Kind: FAlias, L: id, R: e, Origin: origin}, id, e)
 		f.raw = fmt.Sprintf("alias:%s=%s", varID(v), fl.raw.canon(e))
